@@ -47,7 +47,7 @@ def c01(tier, seed):
     _uci_perfts(c, res)
     c.require("positions", 100000 if q else 5000000)
     c.require("synth:ep-matrix", 1000)
-    c.require("uci-perft-counts-compared", 100)
+    c.require("uci-perft-counts-compared", 50)
     c.require("perft-differentials", 5000)
     return c.finish()
 
@@ -77,7 +77,7 @@ def c02(tier, seed):
     _uci_boards(c, res)
     for k in ["class:castleK", "class:castleQ", "class:ep", "class:promo", "class:promo-capture", "class:rook-captured-at-home"]:
         c.require(k, 300 if q else 20000)
-    c.require("uci-printboard-fens-compared", 300)
+    c.require("uci-printboard-fens-compared", 150)
     return c.finish()
 
 
@@ -95,9 +95,9 @@ def c03(tier, seed):
     for w in run_workers(argvs, 2400):
         c.absorb(w)
     c.assumptions = API_ASSUME
-    c.require("root-entries-snapshotted", 5000)
-    c.require("stop:before-iter1", 20)
-    c.require("stop:later", 20)
+    c.require("root-entries-snapshotted", 1500)
+    c.require("stop:before-iter1", 8)
+    c.require("stop:later", 8)
     c.require("walk-pairs", 5000 if q else 300000)
     c.require("undo:castleK", 50)
     c.require("undo:ep", 50)
@@ -341,7 +341,7 @@ def c19(tier, seed):
     c.require("book-move:non-king-from-e1/e8-along-back-rank", 30)
     c.require("files:empty", 8)
     c.require("files:truncated-tail", 500)
-    c.require("weight-vectors-sampled", 1000)
+    c.require("weight-vectors-sampled", 600)
     c.require("book-move:castling", 100)
     c.require("book-move:promotion", 100)
     return c.finish()
@@ -401,7 +401,7 @@ def c08(tier, seed):
               "is decided by the oracle's exhaustive AND/OR mate solver (engine's own unit first, then the y-moves reading, within a "
               "node budget; budget exhaustion is counted as unverified, never as a violation); non-trivial = distinct (position, go, table)")
     c.assumptions = SEARCH_ASSUME + ["mate claims longer than the solver budget allows are reported as unverified"]
-    c.require("roots:mate-in-one-with-clock>=98", 100)
+    c.require("roots:mate-in-one-with-clock>=98", 40)
     c.require("searches:after-aborted-search-of-same-root", 300)
     c.require("ep-twin-scenarios", 50)
     c.require("aborted-inside-iteration-2-then-searched-again", 200)
